@@ -113,10 +113,16 @@ def apply(prog):
     def crate_of(name):
         return name.split("::", 1)[0]
 
+    def is_async_wrapper(g):
+        c = prog.fns.get(g.name + "::{closure#0}")
+        return c is not None and bool(c.d.get("coroutine"))
+
     def is_helper(g):
+        # (the outer function of an `async fn` only builds the future: rules look through those themselves)
         return (crate_of(g.name) in members and _norm(g.name) not in known and g.d.get("kind") in ("Fn", "AssocFn")
-                and not g.d.get("coroutine") and "::{closure" not in g.name and "::promoted[" not in g.name)
+                and not g.d.get("coroutine") and "::{closure" not in g.name and "::promoted[" not in g.name and not is_async_wrapper(g))
     helpers = [g for g in prog.fns.values() if is_helper(g)]
+    prog.new_helpers = {}
     if not helpers:
         return []
     names = {g.name for g in helpers}
@@ -133,4 +139,10 @@ def apply(prog):
         if fd.get("inlined"):
             prog.fns[name] = Fn(fd, f.crate, f.tys)
             done.append((name, fd["inlined"]))
+    # a helper that is no longer called directly anywhere lives on only inside its callers
+    still = {b["t"]["f"].get("inst") for f in prog.fns.values() for b in f.d["blocks"] if b["t"]["k"] == "call"}
+    prog.new_helpers = {}
+    for g in helpers:
+        if g.name not in still and any(g.name in inl for _, inl in done):
+            prog.new_helpers[g.name] = prog.fns.pop(g.name)
     return done
